@@ -19,36 +19,43 @@ namespace A10.Wake
 open A10
 
 /-- The states reachable from a start state (any configuration, at least one
-submission-queue slot) by any interleaving of moves. -/
+submission-queue slot and one completion-queue slot) by any interleaving of moves. -/
 def Reachable (s : St) : Prop :=
-  ∃ (mode : Mode) (sqLen : Nat) (ms : List Mv), 1 ≤ sqLen ∧ runMv (init mode sqLen) ms = s
+  ∃ (mode : Mode) (sqLen cqLen : Nat) (ms : List Mv),
+    1 ≤ sqLen ∧ 1 ≤ cqLen ∧ runMv (initC mode sqLen cqLen) ms = s
 
 theorem Reachable.step {s : St} (h : Reachable s) (m : Mv) : Reachable (stepMv s m) := by
-  rcases h with ⟨mode, sqLen, ms, hl, rfl⟩
-  exact ⟨mode, sqLen, ms ++ [m], hl, by rw [runMv_append]; rfl⟩
+  rcases h with ⟨mode, sqLen, cqLen, ms, hl, hc, rfl⟩
+  exact ⟨mode, sqLen, cqLen, ms ++ [m], hl, hc, by rw [runMv_append]; rfl⟩
 
 theorem Reachable.run {s : St} (h : Reachable s) (ms : List Mv) : Reachable (runMv s ms) := by
-  rcases h with ⟨mode, sqLen, ms0, hl, rfl⟩
-  exact ⟨mode, sqLen, ms0 ++ ms, hl, by rw [runMv_append]⟩
+  rcases h with ⟨mode, sqLen, cqLen, ms0, hl, hc, rfl⟩
+  exact ⟨mode, sqLen, cqLen, ms0 ++ ms, hl, hc, by rw [runMv_append]⟩
+
+/-- The start state with the default completion queue is a start state. -/
+theorem Reachable.of_init (mode : Mode) (sqLen : Nat) (hl : 1 ≤ sqLen) (ms : List Mv) :
+    Reachable (runMv (init mode sqLen) ms) :=
+  ⟨mode, sqLen, 64, ms, hl, by decide, rfl⟩
 
 /-! ### The invariant -/
 
 /-- The inductive invariant (`Lemmas/Wake.lean`, `Inv`) holds after every interleaving. -/
-theorem C11_inv (mode : Mode) (sqLen : Nat) (hlen : 1 ≤ sqLen) (ms : List Mv) :
-    Inv (runMv (init mode sqLen) ms) :=
-  inv_runMv (inv_init mode sqLen hlen) ms
+theorem C11_inv (mode : Mode) (sqLen cqLen : Nat) (hlen : 1 ≤ sqLen) (hclen : 1 ≤ cqLen)
+    (ms : List Mv) : Inv (runMv (initC mode sqLen cqLen) ms) :=
+  inv_runMv (inv_initC mode sqLen cqLen hlen hclen) ms
 
 theorem Reachable.inv {s : St} (h : Reachable s) : Inv s := by
-  rcases h with ⟨mode, sqLen, ms, hl, rfl⟩
-  exact C11_inv mode sqLen hl ms
+  rcases h with ⟨mode, sqLen, cqLen, ms, hl, hc, rfl⟩
+  exact C11_inv mode sqLen cqLen hl hc ms
 
 /-- The invariant in the words of DESIGN.md: once some `wake()` call has passed its
-`fetch_or` since the poller's previous return, the completion queue is non-empty, or
+`fetch_or` since the poller's previous return, a completion is available (in the
+completion queue or on the kernel's overflow list), or
 a wake message is queued, or a waker is on its sending path, or AWOKEN is set and the
 poller has not executed its swap yet, or the poller is past the swap and cannot block. -/
 theorem C11_inv_design (s : St) (hs : Reachable s) :
     s.oblig = true →
-      0 < s.cq ∨ true ∈ s.sq ∨ Has (fun pc => pc.sending = true) s.w ∨
+      0 < s.avail ∨ true ∈ s.sq ∨ Has (fun pc => pc.sending = true) s.w ∨
       (s.word / 2 % 2 = 1 ∧ (s.p = .idle ∨ (∃ inf, s.p = .start inf) ∨ (∃ inf, s.p = .c3 inf))) ∨
       ((∃ n, s.p = .e3 false n) ∨ s.p = .c4 ∨ s.p = .c5) := by
   intro ho
@@ -70,47 +77,59 @@ theorem C11_inv_design (s : St) (hs : Reachable s) :
 
 /-- The configuration never changes. -/
 theorem stepMv_mode (s : St) (m : Mv) :
-    (stepMv s m).mode = s.mode ∧ (stepMv s m).sqLen = s.sqLen := by
+    (stepMv s m).mode = s.mode ∧ (stepMv s m).sqLen = s.sqLen ∧ (stepMv s m).cqLen = s.cqLen := by
   cases m with
   | poll inf => simp only [stepMv, startPoll]; split <;> simp
   | p =>
     simp only [stepMv, stepP]
-    split <;> (try split) <;> (try split) <;> simp [consume]
+    split <;> (try split) <;> (try split) <;> simp [consume, post, flush]
   | call j =>
     simp only [stepMv, startWake]
     split <;> (try split) <;> simp
-  | w j => exact ⟨(stepW_frame s j).2.2.1, (stepW_frame s j).2.2.2.1⟩
-  | k => simp only [stepMv, stepK]; split <;> simp [consume]
-  | io => simp [stepMv, stepIo]
+  | w j => exact ⟨(stepW_frame s j).2.2.1, (stepW_frame s j).2.2.2.1, (stepW_frame s j).2.2.2.2.1⟩
+  | k => simp only [stepMv, stepK]; split <;> simp [consume, post]
+  | io => simp [stepMv, stepIo, post]
   | fill => simp only [stepMv, stepFill]; split <;> simp
 
-theorem C11_config_const (mode : Mode) (sqLen : Nat) (ms : List Mv) :
-    (runMv (init mode sqLen) ms).mode = mode ∧ (runMv (init mode sqLen) ms).sqLen = sqLen := by
-  have : ∀ (s : St) (ms : List Mv), (runMv s ms).mode = s.mode ∧ (runMv s ms).sqLen = s.sqLen := by
+theorem C11_config_const (mode : Mode) (sqLen cqLen : Nat) (ms : List Mv) :
+    (runMv (initC mode sqLen cqLen) ms).mode = mode ∧
+    (runMv (initC mode sqLen cqLen) ms).sqLen = sqLen ∧
+    (runMv (initC mode sqLen cqLen) ms).cqLen = cqLen := by
+  have : ∀ (s : St) (ms : List Mv), (runMv s ms).mode = s.mode ∧ (runMv s ms).sqLen = s.sqLen ∧
+      (runMv s ms).cqLen = s.cqLen := by
     intro s ms
     induction ms generalizing s with
-    | nil => exact ⟨rfl, rfl⟩
+    | nil => exact ⟨rfl, rfl, rfl⟩
     | cons m ms ih =>
       have a := ih (stepMv s m)
       have b := stepMv_mode s m
-      exact ⟨a.1.trans b.1, a.2.trans b.2⟩
-  exact this (init mode sqLen) ms
+      exact ⟨a.1.trans b.1, a.2.1.trans b.2.1, a.2.2.trans b.2.2⟩
+  exact this (initC mode sqLen cqLen) ms
 
 /-! ### No lost wake-up: a blocked poller -/
+
+/-- A blocked poller leaves `.waiting` as soon as a completion is available: the wait loop
+flushes the overflow list into the (at least one slot large) queue. -/
+theorem stepP_waiting_avail {s : St} (hc : 1 ≤ s.cqLen) (hp : s.p = .waiting)
+    (h : 0 < s.avail) : (stepP s).p = .c4 := by
+  have hf : (flush s).cq > 0 := flush_cq_pos hc h
+  simp only [stepP, hp]
+  rw [if_pos hf]
 
 /-- The poller is never blocked for good after a completed wake: if it is blocked
 in the kernel (`.waiting`, infinite timeout), a `wake()` call has passed its
 `fetch_or` since the poller's previous return, every wake call has returned and
-(SQPOLL) the kernel thread has nothing left to consume, then the completion queue
-is non-empty, so the blocked `io_uring_enter` returns: the poller's next step
+(SQPOLL) the kernel thread has nothing left to consume, then a completion is
+available (in the completion queue, or on the overflow list from which the wait loop
+moves it into the queue), so the blocked `io_uring_enter` returns: the poller's next step
 leaves `.waiting`. -/
 theorem C11_no_lost_wake (s : St) (hs : Reachable s) :
     s.p = .waiting → s.oblig = true → (∀ pc ∈ s.w, pc = .done) →
     (s.mode = .sqpoll → true ∉ s.sq) →
-      0 < s.cq ∧ (stepP s).p = .c4 := by
+      0 < s.avail ∧ (stepP s).p = .c4 := by
   intro hp ho hd hk
   have hinv := hs.inv
-  have hcq : 0 < s.cq := by
+  have hcq : 0 < s.avail := by
     rcases hinv.ob ho with c | c | c | c | c
     · exact c
     · by_cases hm : s.mode = .sqpoll
@@ -121,17 +140,17 @@ theorem C11_no_lost_wake (s : St) (hs : Reachable s) :
       rw [hp] at c2; simp [PPc.preSwap] at c2
     · rw [hp] at c; simp [PPc.noBlock] at c
   refine ⟨hcq, ?_⟩
-  simp [stepP, hp, hcq]
+  exact stepP_waiting_avail hinv.clen hp hcq
 
 /-- The same with the kernel thread still to run: after its step (which is a no-op
 without SQPOLL) the blocked poller leaves `.waiting`. No hypothesis on `sq`. -/
 theorem C11_no_lost_wake_kernel (s : St) (hs : Reachable s) :
     s.p = .waiting → s.oblig = true → (∀ pc ∈ s.w, pc = .done) →
-      0 < (stepK s).cq ∧ (stepP (stepK s)).p = .c4 := by
+      0 < (stepK s).avail ∧ (stepP (stepK s)).p = .c4 := by
   intro hp ho hd
   have hinv := hs.inv
-  have hcq : 0 < (stepK s).cq := by
-    have hc := consume_cq_le s s.sq.length
+  have hcq : 0 < (stepK s).avail := by
+    have hc := consume_avail_le s s.sq.length
     rcases hinv.ob ho with c | c | c | c | c
     · unfold stepK; split
       · omega
@@ -140,7 +159,7 @@ theorem C11_no_lost_wake_kernel (s : St) (hs : Reachable s) :
       · simp only [stepK, hm, beq_self_eq_true, if_true]
         rcases consume_true s.sq.length c with d | d
         · exact d
-        · simp [consume] at d
+        · simp [consume_sq] at d
       · exact absurd (hinv.cover hm c) (not_has_of_all hd (by simp))
     · exact absurd c (not_has_of_all hd (by simp [WPc.robust]))
     · have c2 := c.2
@@ -151,17 +170,21 @@ theorem C11_no_lost_wake_kernel (s : St) (hs : Reachable s) :
     unfold stepK; split
     · exact hp
     · exact hp
-  simp [stepP, hp', hcq]
+  have hc' : 1 ≤ (stepK s).cqLen := by
+    unfold stepK; split
+    · exact hinv.clen
+    · exact hinv.clen
+  exact stepP_waiting_avail hc' hp' hcq
 
 /-- SQPOLL: while a wake message is published the kernel thread's move is enabled,
 it empties the queue and posts the message's completion. (Any state.) -/
 theorem C11_kernel_thread_enabled (s : St) (hm : s.mode = .sqpoll) (hsq : true ∈ s.sq) :
-    0 < (stepK s).cq ∧ (stepK s).sq = [] := by
+    0 < (stepK s).avail ∧ (stepK s).sq = [] := by
   simp only [stepK, hm, beq_self_eq_true, if_true]
-  refine ⟨?_, by simp [consume]⟩
+  refine ⟨?_, by simp [consume_sq]⟩
   rcases consume_true s.sq.length hsq with d | d
   · exact d
-  · simp [consume] at d
+  · simp [consume_sq] at d
 
 /-- Position of a waker in its call (number of own steps still to go, at most). -/
 def WPc.rank : WPc → Nat
@@ -182,7 +205,7 @@ theorem C11_waker_progress (s : St) (hs : Reachable s) (j : Nat) (pc : WPc) :
     s.w[j]? = some pc → pc ≠ .done →
       (∃ pc', (stepW s j).w[j]? = some pc' ∧ pc'.rank < pc.rank) ∨
       (s.mode = .sqpoll ∧ (∃ n, pc = .enter false n) ∧ s.sq.length = s.sqLen ∧
-        (stepK s).sq = [] ∧ (true ∈ s.sq → 0 < (stepK s).cq) ∧
+        (stepK s).sq = [] ∧ (true ∈ s.sq → 0 < (stepK s).avail) ∧
         ∃ n', (stepW (stepK s) j).w[j]? = some (.enter true n')) := by
   intro hj hnd
   have hinv := hs.inv
@@ -212,13 +235,13 @@ theorem C11_waker_progress (s : St) (hs : Reachable s) (j : Nat) (pc : WPc) :
         · have hfull : s.sq.length = s.sqLen := by omega
           have hk : stepK s = consume s s.sq.length := by simp [stepK, hm]
           have hjk : (stepK s).w[j]? = some (.enter false n) := by rw [hk]; exact hj
-          have hsq0 : (stepK s).sq = [] := by rw [hk]; simp [consume]
-          have hcq : true ∈ s.sq → 0 < (stepK s).cq := by
+          have hsq0 : (stepK s).sq = [] := by rw [hk]; simp [consume_sq]
+          have hcq : true ∈ s.sq → 0 < (stepK s).avail := by
             intro hin
             rw [hk]
             rcases consume_true s.sq.length hin with d | d
             · exact d
-            · simp [consume] at d
+            · simp [consume_sq] at d
           have hlt' : (consume (stepK s) n).sq.length < (stepK s).sqLen := by
             have := consume_len (stepK s) n
             have e : (stepK s).sqLen = s.sqLen := by rw [hk]; rfl
@@ -295,7 +318,7 @@ theorem stepMv_other_frame (s : St) (m : Mv) (hm : m ≠ .p) :
       · exact ⟨rfl, Or.inl rfl, fun h => h⟩
   | w j =>
     have := stepW_frame s j
-    exact ⟨this.2.1, Or.inl this.1, this.2.2.2.2⟩
+    exact ⟨this.2.1, Or.inl this.1, this.2.2.2.2.2⟩
   | k =>
     simp only [stepMv, stepK]
     split
@@ -451,47 +474,52 @@ theorem rw_c5 {s : St} (hp : s.p = .c5) : ReturnsWithin s 1 :=
 theorem rw_c4 {s : St} (hp : s.p = .c4) : ReturnsWithin s 2 :=
   returnsWithin_succ (rw_c5 (by simp [stepP, hp])) (by simp [stepP, hp])
 
-theorem rw_waiting {s : St} (hp : s.p = .waiting) (hcq : 0 < s.cq) : ReturnsWithin s 3 :=
-  returnsWithin_succ (rw_c4 (by simp [stepP, hp, hcq])) (by simp [stepP, hp, hcq])
-
-theorem rw_e3 {s : St} {b : Bool} {n : Nat} (hp : s.p = .e3 b n) (h : b = false ∨ 0 < s.cq) :
+theorem rw_waiting {s : St} (hc : 1 ≤ s.cqLen) (hp : s.p = .waiting) (hcq : 0 < s.avail) :
     ReturnsWithin s 3 := by
+  have hf : (flush s).cq > 0 := flush_cq_pos hc hcq
+  exact returnsWithin_succ (rw_c4 (stepP_waiting_avail hc hp hcq))
+    (by simp only [stepP, hp]; rw [if_pos hf]; rfl)
+
+theorem rw_e3 {s : St} {b : Bool} {n : Nat} (hc : 1 ≤ s.cqLen) (hp : s.p = .e3 b n)
+    (h : b = false ∨ 0 < s.avail) : ReturnsWithin s 3 := by
   have e : (stepP s).p = .c4 ∧ (stepP s).returns = s.returns := by
     simp only [stepP, hp]
-    have hr : (consume s n).returns = s.returns := rfl
-    have hcc : s.cq ≤ (consume s n).cq := consume_cq_le s n
-    generalize consume s n = t at hr hcc
+    have hr : (flush (consume s n)).returns = s.returns := rfl
+    have hcc : 0 < s.avail → (flush (consume s n)).cq > 0 := by
+      intro h0
+      exact flush_cq_pos (s := consume s n) hc (by have := consume_avail_le s n; omega)
+    generalize flush (consume s n) = t at hr hcc
     by_cases hcq : t.cq > 0
     · simp [hcq, hr]
     · rcases h with h | h
       · subst h; simp [hcq, hr]
-      · omega
+      · exact absurd (hcc h) hcq
   exact returnsWithin_succ (rw_c4 e.1) e.2
 
-theorem rw_c3 {s : St} {inf : Bool} (hp : s.p = .c3 inf) (h : s.word = 2 ∨ 0 < s.cq) :
-    ReturnsWithin s 4 := by
+theorem rw_c3 {s : St} {inf : Bool} (hc : 1 ≤ s.cqLen) (hp : s.p = .c3 inf)
+    (h : s.word = 2 ∨ 0 < s.avail) : ReturnsWithin s 4 := by
   refine returnsWithin_succ (rw_e3 (b := inf && !(s.word / 2 % 2 == 1)) (n := toSubmit s)
-    (by simp [stepP, hp]) ?_) (by simp [stepP, hp])
+    (by simpa [stepP, hp] using hc) (by simp [stepP, hp]) ?_) (by simp [stepP, hp])
   rcases h with h | h
   · left; simp [h]
   · right; simpa [stepP, hp] using h
 
-theorem rw_start {s : St} {inf : Bool} (hp : s.p = .start inf) (h : s.word = 2 ∨ 0 < s.cq) :
-    ReturnsWithin s 5 := by
+theorem rw_start {s : St} {inf : Bool} (hc : 1 ≤ s.cqLen) (hp : s.p = .start inf)
+    (h : s.word = 2 ∨ 0 < s.avail) : ReturnsWithin s 5 := by
   by_cases hcq : s.cq > 0
   · exact returnsWithin_one (by simp [stepP, hp, hcq]) (by omega)
-  · refine returnsWithin_succ (rw_c3 (inf := inf) (by simp [stepP, hp, hcq]) ?_)
-      (by simp [stepP, hp, hcq])
+  · refine returnsWithin_succ (rw_c3 (inf := inf) (by simpa [stepP, hp, hcq] using hc)
+      (by simp [stepP, hp, hcq]) ?_) (by simp [stepP, hp, hcq])
     rcases h with h | h
     · left; simpa [stepP, hp, hcq] using h
-    · exact absurd h hcq
+    · right; simpa [stepP, hp, hcq] using h
 
-/-- Any state (reachable or not): a poller that is in a call and either cannot block
-any more (`NoBlockAhead`) or has a non-empty completion queue returns within 5 of its
-own steps, nothing else moving. -/
-theorem C11_poll_returns_unblocked (s : St) (hne : s.p ≠ .idle)
-    (h : NoBlockAhead s ∨ 0 < s.cq) : ReturnsWithin s 5 := by
-  have hw : (s.p.preSwap = true → s.word = 2 ∨ 0 < s.cq) := by
+/-- Any state with a non-degenerate completion queue (reachable or not): a poller that is
+in a call and either cannot block any more (`NoBlockAhead`) or has a completion available
+(in the queue or on the overflow list) returns within 5 of its own steps, nothing else moving. -/
+theorem C11_poll_returns_unblocked (s : St) (hc : 1 ≤ s.cqLen) (hne : s.p ≠ .idle)
+    (h : NoBlockAhead s ∨ 0 < s.avail) : ReturnsWithin s 5 := by
+  have hw : (s.p.preSwap = true → s.word = 2 ∨ 0 < s.avail) := by
     intro hpre
     rcases h with (⟨_, h⟩ | h) | h
     · exact Or.inl h
@@ -499,16 +527,16 @@ theorem C11_poll_returns_unblocked (s : St) (hne : s.p ≠ .idle)
     · exact Or.inr h
   cases hp : s.p with
   | idle => exact absurd hp hne
-  | start inf => exact rw_start hp (hw (by simp [hp, PPc.preSwap]))
-  | c3 inf => exact returnsWithin_mono (rw_c3 hp (hw (by simp [hp, PPc.preSwap]))) (by omega)
+  | start inf => exact rw_start hc hp (hw (by simp [hp, PPc.preSwap]))
+  | c3 inf => exact returnsWithin_mono (rw_c3 hc hp (hw (by simp [hp, PPc.preSwap]))) (by omega)
   | e3 b n =>
-    refine returnsWithin_mono (rw_e3 hp ?_) (by omega)
+    refine returnsWithin_mono (rw_e3 hc hp ?_) (by omega)
     rcases h with (⟨h, _⟩ | h) | h
     · simp [hp, PPc.preSwap] at h
     · left; cases b <;> simp_all [PPc.noBlock]
     · exact Or.inr h
   | waiting =>
-    refine returnsWithin_mono (rw_waiting hp ?_) (by omega)
+    refine returnsWithin_mono (rw_waiting hc hp ?_) (by omega)
     rcases h with (⟨h, _⟩ | h) | h
     · simp [hp, PPc.preSwap] at h
     · simp [hp, PPc.noBlock] at h
@@ -526,7 +554,7 @@ theorem C11_poll_returns (s : St) (hs : Reachable s) (hne : s.p ≠ .idle)
     (ho : s.oblig = true) (hd : ∀ pc ∈ s.w, pc = .done) (hk : s.mode = .sqpoll → true ∉ s.sq) :
     ReturnsWithin s 6 := by
   have hinv := hs.inv
-  refine returnsWithin_mono (C11_poll_returns_unblocked s hne ?_) (by omega)
+  refine returnsWithin_mono (C11_poll_returns_unblocked s hinv.clen hne ?_) (by omega)
   rcases hinv.ob ho with c | c | c | c | c
   · exact Or.inr c
   · by_cases hm : s.mode = .sqpoll
@@ -547,13 +575,13 @@ def PPc.rank : PPc → Nat
   | .start _ => 6
 
 /-- Under ANY interleaving: every step of the poller, except while it is blocked with
-an empty completion queue, brings it strictly closer to its return (so it makes at
+nothing available (empty completion queue and empty overflow list), brings it strictly closer to its return (so it makes at
 most 6 such steps per call), and no other move changes the poller's pc (a `poll` move
 only starts a new call when it is idle). With `C11_no_lost_wake` (a blocked poller
 with a completed wake pending has a non-empty completion queue) this is the bounded
 response for arbitrary interleavings. -/
-theorem C11_poll_progress (s : St) :
-    (s.p ≠ .idle → ¬ (s.p = .waiting ∧ s.cq = 0) → (stepP s).p.rank < s.p.rank) ∧
+theorem C11_poll_progress (s : St) (hc : 1 ≤ s.cqLen) :
+    (s.p ≠ .idle → ¬ (s.p = .waiting ∧ s.avail = 0) → (stepP s).p.rank < s.p.rank) ∧
     (∀ m : Mv, m ≠ .p → (stepMv s m).p = s.p ∨
       (∃ inf, m = .poll inf ∧ s.p = .idle ∧ (stepMv s m).p = .start inf)) := by
   refine ⟨?_, fun m hm => (stepMv_other_frame s m hm).2.1⟩
@@ -564,26 +592,26 @@ theorem C11_poll_progress (s : St) :
   | c3 inf => simp [stepP, hp, PPc.rank]
   | e3 b n => simp only [stepP, hp]; (repeat' split) <;> simp [PPc.rank]
   | waiting =>
-    have : 0 < s.cq := by
-      rcases Nat.eq_zero_or_pos s.cq with h | h
+    have : 0 < s.avail := by
+      rcases Nat.eq_zero_or_pos s.avail with h | h
       · exact absurd ⟨hp, h⟩ hnb
       · exact h
-    simp [stepP, hp, this, PPc.rank]
+    rw [stepP_waiting_avail hc hp this]; decide
   | c4 => simp [stepP, hp, PPc.rank]
   | c5 => simp [stepP, hp, PPc.rank]
 
 /-- The literal reading "from any reachable state in which the poller is not idle and
-not `.waiting` with `cq = 0`, the poller returns within 6 own steps" does NOT hold, and
+not `.waiting` with nothing available, the poller returns within 6 own steps" does NOT hold, and
 must not: a poll with an infinite timeout, no wake call and no I/O blocks. It is kept
 here as a `Prop` with its refutation; `C11_poll_returns` is the statement with the
 hypothesis that a wake call is pending. -/
 def C11_poll_returns_literal : Prop :=
-  ∀ s : St, Reachable s → s.p ≠ .idle → ¬ (s.p = .waiting ∧ s.cq = 0) → ReturnsWithin s 6
+  ∀ s : St, Reachable s → s.p ≠ .idle → ¬ (s.p = .waiting ∧ s.avail = 0) → ReturnsWithin s 6
 
 theorem C11_poll_returns_literal_fails : ¬ C11_poll_returns_literal := by
   intro h
   have hr : Reachable (runMv (init .default 4) [.poll true]) :=
-    ⟨.default, 4, [.poll true], by decide, rfl⟩
+    Reachable.of_init .default 4 (by decide) _
   rcases h _ hr (by decide) (by decide) with ⟨i, hi, hp, _⟩
   have : i = 0 ∨ i = 1 ∨ i = 2 ∨ i = 3 ∨ i = 4 ∨ i = 5 ∨ i = 6 := by omega
   rcases this with e | e | e | e | e | e | e <;> subst e <;> revert hp <;> decide
@@ -605,11 +633,12 @@ theorem C11_after_drop (s : St) (j : Nat) (hj : s.w[j]? = some .k1) (hw : s.word
     stepW s j = { s with word := if s.word / 2 % 2 = 1 then s.word else s.word + 2,
                          oblig := true, w := s.w.set j .done } ∧
     (stepW s j).w[j]? = some .done ∧ (stepW s j).sq = s.sq ∧ (stepW s j).cq = s.cq ∧
+    (stepW s j).ovf = s.ovf ∧
     (stepW s j).p = s.p ∧ (stepW s j).word % 2 = 0 ∧
     (∀ i, i ≠ j → (stepW s j).w[i]? = s.w[i]?) := by
   have hne : s.word ≠ 1 := by omega
   rw [stepW_k1_other hj hne]
-  refine ⟨rfl, ?_, rfl, rfl, rfl, ?_, ?_⟩
+  refine ⟨rfl, ?_, rfl, rfl, rfl, rfl, ?_, ?_⟩
   · show (s.w.set j .done)[j]? = _
     rw [get_set hj]; simp
   · show (if s.word / 2 % 2 = 1 then s.word else s.word + 2) % 2 = 0
@@ -619,11 +648,11 @@ theorem C11_after_drop (s : St) (j : Nat) (hj : s.w[j]? = some .k1) (hw : s.word
     rw [get_set hj]; simp [hi]
 
 /-- What holds along a run of wake calls while nobody polls. -/
-def Dropped (sq : List Bool) (cq : Nat) (t : St) : Prop :=
+def Dropped (sq : List Bool) (cq : Nat × Nat) (t : St) : Prop :=
   t.p = .idle ∧ t.word % 2 = 0 ∧ (∀ pc ∈ t.w, pc = .k1 ∨ pc = .done) ∧
-  (∃ k, t.sq = sq ++ List.replicate k false) ∧ t.cq = cq
+  (∃ k, t.sq = sq ++ List.replicate k false) ∧ (t.cq, t.ovf) = cq
 
-theorem dropped_step {sq : List Bool} {cq : Nat} {t : St} (h : Dropped sq cq t) (m : Mv)
+theorem dropped_step {sq : List Bool} {cq : Nat × Nat} {t : St} (h : Dropped sq cq t) (m : Mv)
     (hm : (∃ j, m = .call j) ∨ (∃ j, m = .w j) ∨ m = .fill) : Dropped sq cq (stepMv t m) := by
   rcases h with ⟨h1, h2, h3, h4, h5⟩
   rcases hm with ⟨j, rfl⟩ | ⟨j, rfl⟩ | rfl
@@ -648,7 +677,8 @@ theorem dropped_step {sq : List Bool} {cq : Nat} {t : St} (h : Dropped sq cq t) 
       rcases h3 pc (List.mem_of_getElem? hj) with e | e
       · subst e
         have a := C11_after_drop t j hj h2
-        refine ⟨a.2.2.2.2.1.trans h1, a.2.2.2.2.2.1, ?_, ?_, a.2.2.2.1.trans h5⟩
+        refine ⟨a.2.2.2.2.2.1.trans h1, a.2.2.2.2.2.2.1, ?_, ?_,
+          (by rw [a.2.2.2.1, a.2.2.2.2.1]; exact h5)⟩
         · rw [a.1]
           intro pc hpc
           rcases List.mem_or_eq_of_mem_set hpc with b | b
@@ -676,11 +706,11 @@ theorem C11_after_drop_run (s : St) (hs : Reachable s) (hp : s.p = .idle)
     (hd : ∀ pc ∈ s.w, pc = .done) (ms : List Mv)
     (hms : ∀ m ∈ ms, (∃ j, m = .call j) ∨ (∃ j, m = .w j) ∨ m = .fill) :
     let t := runMv s ms
-    (∃ k, t.sq = s.sq ++ List.replicate k false) ∧ t.cq = s.cq ∧ t.p = .idle ∧
+    (∃ k, t.sq = s.sq ++ List.replicate k false) ∧ t.cq = s.cq ∧ t.ovf = s.ovf ∧ t.p = .idle ∧
     (∀ pc ∈ t.w, pc = .k1 ∨ pc = .done) := by
   have key : ∀ (t : St) (ms : List Mv),
       (∀ m ∈ ms, (∃ j, m = .call j) ∨ (∃ j, m = .w j) ∨ m = .fill) →
-      Dropped s.sq s.cq t → Dropped s.sq s.cq (runMv t ms) := by
+      Dropped s.sq (s.cq, s.ovf) t → Dropped s.sq (s.cq, s.ovf) (runMv t ms) := by
     intro t ms
     induction ms generalizing t with
     | nil => intro _ h; exact h
@@ -688,10 +718,11 @@ theorem C11_after_drop_run (s : St) (hs : Reachable s) (hp : s.p = .idle)
       intro hms h
       exact ih (stepMv t m) (fun m' hm' => hms m' (by simp [hm']))
         (dropped_step h m (hms m (by simp)))
-  have h0 : Dropped s.sq s.cq s :=
+  have h0 : Dropped s.sq (s.cq, s.ovf) s :=
     ⟨hp, C11_idle_word s hs hp, fun pc hpc => Or.inr (hd pc hpc), ⟨0, by simp⟩, rfl⟩
   have := key s ms hms h0
-  exact ⟨this.2.2.2.1, this.2.2.2.2, this.1, this.2.2.1⟩
+  exact ⟨this.2.2.2.1, congrArg Prod.fst this.2.2.2.2, congrArg Prod.snd this.2.2.2.2, this.1,
+    this.2.2.1⟩
 
 /-! ### The choice of reading, made visible -/
 
@@ -839,7 +870,7 @@ example : ∀ mode : Mode,
     Reachable s ∧ s.p = .waiting ∧ s.oblig = true ∧ (∀ pc ∈ s.w, pc = .done) ∧
     (s.mode = .sqpoll → true ∉ s.sq) ∧ s.w ≠ [] := by
   intro mode
-  refine ⟨⟨mode, 4, _, by decide, rfl⟩, ?_⟩
+  refine ⟨Reachable.of_init mode 4 (by decide) _, ?_⟩
   cases mode <;> decide
 
 /-- Two wakers, the second finds POLLING|AWOKEN and sends nothing. -/
@@ -849,7 +880,7 @@ example : ∀ mode : Mode,
     Reachable s ∧ s.p = .waiting ∧ s.oblig = true ∧ (∀ pc ∈ s.w, pc = .done) ∧
     (s.mode = .sqpoll → true ∉ s.sq) ∧ s.w.length = 2 := by
   intro mode
-  refine ⟨⟨mode, 4, _, by decide, rfl⟩, ?_⟩
+  refine ⟨Reachable.of_init mode 4 (by decide) _, ?_⟩
   cases mode <;> decide
 
 /-- A state meeting the hypotheses of `C11_next_poll_prompt`: a wake call runs to
@@ -858,7 +889,7 @@ example : ∀ mode : Mode,
     let s := runMv (init mode 4) [.call 0, .w 0]
     Reachable s ∧ s.p = .idle ∧ s.oblig = true ∧ (∀ pc ∈ s.w, pc = .done) ∧ s.w ≠ [] := by
   intro mode
-  refine ⟨⟨mode, 4, _, by decide, rfl⟩, ?_⟩
+  refine ⟨Reachable.of_init mode 4 (by decide) _, ?_⟩
   cases mode <;> decide
 
 example : ∀ mode : Mode,
@@ -867,7 +898,7 @@ example : ∀ mode : Mode,
     Reachable s ∧ s.p = .idle ∧ s.returns = 1 ∧ s.oblig = true ∧
     (∀ pc ∈ s.w, pc = .done) ∧ s.w ≠ [] := by
   intro mode
-  refine ⟨⟨mode, 4, _, by decide, rfl⟩, ?_⟩
+  refine ⟨Reachable.of_init mode 4 (by decide) _, ?_⟩
   cases mode <;> decide
 
 /-- The `QueueFull` retry loop is reachable (queue of one slot, two wakers), in the
@@ -888,7 +919,7 @@ example : ∀ mode : Mode,
     Reachable s ∧ s.p = .waiting ∧ s.oblig = true ∧ (∀ pc ∈ s.w, pc = .done) ∧
     (s.mode = .sqpoll → true ∉ s.sq) ∧ false ∈ s.sq ∧ 0 < s.cq := by
   intro mode
-  refine ⟨⟨mode, 4, _, by decide, rfl⟩, ?_⟩
+  refine ⟨Reachable.of_init mode 4 (by decide) _, ?_⟩
   cases mode <;> decide
 
 /-- The queue exactly full of other submissions when `wake()` is called (one slot, default
@@ -897,7 +928,7 @@ mode): the `QueueFull` retry path, run to completion, meets the hypotheses of
 example :
     let s := runMv (init .default 1) (retryRun ++ [.w 0])
     Reachable s ∧ s.p = .waiting ∧ s.oblig = true ∧ (∀ pc ∈ s.w, pc = .done) ∧ 0 < s.cq :=
-  ⟨⟨.default, 1, _, by decide, rfl⟩, by decide⟩
+  ⟨Reachable.of_init .default 1 (by decide) _, by decide⟩
 
 /-- Hypotheses of `C11_next_poll_prompt` with fillers in the queue. -/
 example : ∀ mode : Mode,
@@ -905,7 +936,65 @@ example : ∀ mode : Mode,
     Reachable s ∧ s.p = .idle ∧ s.oblig = true ∧ (∀ pc ∈ s.w, pc = .done) ∧
     s.sq = [false, false] := by
   intro mode
-  refine ⟨⟨mode, 4, _, by decide, rfl⟩, ?_⟩
+  refine ⟨Reachable.of_init mode 4 (by decide) _, ?_⟩
   cases mode <;> decide
+
+/-! ### A small completion queue: exactly full, and overflow -/
+
+/-- The variant of the poller that goes round again when it found the completion queue
+completely full (to fetch what may have overflown), re-using the caller's timeout: at the
+end of a pass (`.start` with completions, `.c5`) over a full queue it does not return but
+starts over. -/
+def stepPL (inf : Bool) (s : St) : St :=
+  match s.p with
+  | .start _ =>
+    if s.cq > 0 ∧ s.cq = s.cqLen then { s with cq := 0, p := .start inf } else stepP s
+  | .c5 => if s.cq = s.cqLen then { s with cq := 0, p := .start inf } else stepP s
+  | _ => stepP s
+
+def stepMvL (inf : Bool) (s : St) : Mv → St
+  | .p => stepPL inf s
+  | m => stepMv s m
+
+def runMvL (inf : Bool) (s : St) : List Mv → St
+  | [] => s
+  | m :: ms => runMvL inf (stepMvL inf s m) ms
+
+/-- Completion queue of two slots: the poll blocks, an unrelated completion arrives, a wake
+call runs to completion (its message is the second completion: the queue is exactly full),
+the poller processes both. -/
+def exactFullRun : List Mv :=
+  [.poll true, .p, .p, .p, .io, .call 0, .w 0, .w 0, .p, .p, .p, .p, .p, .p]
+
+/-- The real protocol returns from that poll (the queue was exactly full, nothing overflew);
+the go-round-again variant consumes the wake-up and blocks again with nothing left that
+could wake it, although the wake call completed: a lost wake-up. -/
+theorem C11_exact_full_returns_and_second_pass_loses_wake :
+    (let s := runMv (initC .default 2 2) (exactFullRun.take 8)
+     s.p = .waiting ∧ s.cq = 2 ∧ s.cq = s.cqLen ∧ s.ovf = 0 ∧ s.w = [.done]) ∧
+    (let s := runMv (initC .default 2 2) exactFullRun
+     s.p = .idle ∧ s.returns = 1 ∧ s.avail = 0) ∧
+    (let s := runMvL true (initC .default 2 2) exactFullRun
+     s.p = .waiting ∧ s.returns = 0 ∧ s.oblig = true ∧ s.w = [.done] ∧ s.avail = 0 ∧
+     s.sq = [] ∧ (stepPL true s).p = .waiting ∧ (stepPL true s).avail = 0) := by
+  decide
+
+/-- Completions that did not fit are not lost: with a one-slot queue and two completions the
+first poll takes the one in the queue, the next poll does not block — its `enter` moves the
+overflown one into the queue — and returns. -/
+theorem C11_overflow_next_poll :
+    (let s := runMv (initC .default 1 1) [.io, .io, .poll true, .p]
+     Reachable s ∧ s.p = .idle ∧ s.returns = 1 ∧ s.cq = 0 ∧ s.ovf = 1) ∧
+    (let s := runMv (initC .default 1 1) [.io, .io, .poll true, .p, .poll true, .p, .p, .p, .p, .p]
+     s.p = .idle ∧ s.returns = 2 ∧ s.avail = 0) :=
+  ⟨⟨⟨.default, 1, 1, _, by decide, by decide, rfl⟩, by decide⟩, by decide⟩
+
+/-- A wake message that overflows (queue full of other completions) still ends the poll it
+was meant for: hypotheses of `C11_no_lost_wake` with the message on the overflow list. -/
+example :
+    let s := runMv (initC .default 1 1) [.poll true, .p, .p, .p, .call 0, .io, .w 0, .w 0]
+    Reachable s ∧ s.p = .waiting ∧ s.oblig = true ∧ (∀ pc ∈ s.w, pc = .done) ∧
+    s.cq = 1 ∧ s.ovf = 1 :=
+  ⟨⟨.default, 1, 1, _, by decide, by decide, rfl⟩, by decide⟩
 
 end A10.Wake
